@@ -49,26 +49,6 @@ Proof.
   split; [exact H1 | exact H2].
 Qed.
 
-Lemma first_lf v : existsb (N.eqb 10) v = true -> exists a b, v = a ++ 10%N :: b /\ existsb (N.eqb 10) a = false.
-Proof.
-  induction v as [|x r IH]; [discriminate|]. cbn [existsb]. destruct (N.eqb 10 x) eqn:E.
-  - intros _. apply N.eqb_eq in E. subst x. exists [], r. split; reflexivity.
-  - cbn [orb]. intros H. destruct (IH H) as (a & b & -> & Ha). exists (x :: a), b. split; [reflexivity|].
-    cbn [existsb]. rewrite E, Ha. reflexivity.
-Qed.
-
-Lemma split_lines_lf a b : existsb (N.eqb 10) a = false -> forall cur,
-  split_lines (a ++ 10%N :: b) cur = (rev cur ++ a) :: split_lines b [].
-Proof.
-  induction a as [|x r IH]; intros Ha cur.
-  - cbn [app split_lines]. change (N.eqb 10 10) with true. cbv iota. rewrite app_nil_r. reflexivity.
-  - cbn [existsb] in Ha. apply orb_false_elim in Ha as [Hx Hr]. cbn [app split_lines]. rewrite N.eqb_sym, Hx.
-    rewrite (IH Hr (x :: cur)). cbn [rev]. rewrite <- app_assoc. reflexivity.
-Qed.
-
-Lemma lines_of_lf a b : existsb (N.eqb 10) a = false -> lines_of (a ++ 10%N :: b) = a :: lines_of b.
-Proof. intros Ha. unfold lines_of. rewrite (split_lines_lf a b Ha []). reflexivity. Qed.
-
 Lemma utf8_lines v : utf8_valid v = true -> Forall (fun l => starts_char l = true) (lines_of v).
 Proof.
   remember (length v) as n eqn:En. revert v En. induction n as [n IH] using lt_wf_ind. intros v En Hv.
@@ -198,42 +178,12 @@ Proof.
   - apply andb_prop in Hw as [_ Hwr]. destruct Hin as [E | Hin]; [discriminate E | apply (IH false v Hwr Hin)].
 Qed.
 
-Lemma last_in_list' {X} (l : list X) d : l <> [] -> In (last l d) l.
-Proof.
-  induction l as [|a l IH]; [congruence|]. intros _. destruct l as [|b l]; [left; reflexivity|].
-  right. apply IH. discriminate.
-Qed.
-
 Lemma last_line_lf s : last (lines_of (s ++ [10%N])) [] = [].
 Proof.
   rewrite lines_of_app. change (lines_of [10%N]) with [@nil N; @nil N]. cbn [hd tl].
   change (removelast (lines_of s) ++ (last (lines_of s) [] ++ []) :: [[]])
     with (removelast (lines_of s) ++ [last (lines_of s) [] ++ []] ++ [[]]).
   rewrite app_assoc. apply last_last.
-Qed.
-
-Lemma min_list_in l m : min_list l = Some m -> In m l.
-Proof.
-  revert m. induction l as [|x r IH]; intros m H; [discriminate H|]. cbn [min_list] in H.
-  destruct (min_list r) as [m'|] eqn:E.
-  - injection H as <-. destruct (Nat.min_spec x m') as [[_ ->] | [_ ->]]; [left; reflexivity | right; apply IH; reflexivity].
-  - injection H as <-. left; reflexivity.
-Qed.
-
-Lemma min_list_none l : min_list l = None -> l = [].
-Proof. destruct l as [|x r]; [reflexivity|]. cbn [min_list]. destruct (min_list r); discriminate. Qed.
-
-Lemma lines_single s l : lines_of s = [l] -> existsb (N.eqb 10) s = false.
-Proof.
-  intros H. destruct (existsb (N.eqb 10) s) eqn:E; [|reflexivity]. exfalso.
-  destruct (first_lf s E) as (a & b & -> & Ha). rewrite (lines_of_lf a b Ha) in H. injection H as _ H.
-  apply (split_lines_ne b [] H).
-Qed.
-
-Lemma has_lf_sk els : existsb (N.eqb 10) (sk els) = false -> has_lf els = false.
-Proof.
-  induction els as [|el r IH]; intros H; [reflexivity|]. rewrite sk_cons, existsb_app in H. apply orb_false_elim in H as [H1 H2].
-  cbn [has_lf existsb]. fold (has_lf r). rewrite (IH H2), orb_false_r. destruct el as [v|e]; [exact H1 | reflexivity].
 Qed.
 
 Section WfPattern2.
@@ -294,6 +244,75 @@ Proof.
     assert (Hin2 : In (last (l0 :: l1 :: rest') []) (filter (fun l => negb (is_blank_line l)) (l1 :: rest'))).
     { apply filter_In. split; [exact Hin | rewrite C2a; reflexivity]. }
     apply (in_map leading_spaces) in Hin2. unfold bytes in *. rewrite Enone in Hin2. destruct Hin2.
+Qed.
+
+(* the same for the value of a message / term / attribute (Render.wf_pattern_lines_top, class wl_pattern) *)
+Theorem wf_wl_pattern els :
+  wf_pattern (Pattern els) = true -> wf_pattern_lines_top (Pattern els) = true -> Forall (el_ok eok) els ->
+  wl_pattern eok (Pattern els) = true.
+Proof.
+  intros Hwp Hlines Hok. rewrite wf_pattern_els in Hwp. apply andb_prop in Hwp as [Hne Hw].
+  unfold wf_pattern_lines_top in Hlines. fold (sk els) in Hlines.
+  destruct (lines_of (sk els)) as [|l0 rest] eqn:El; [discriminate Hlines|].
+  apply andb_prop in Hlines as [Hlines C5]. apply andb_prop in Hlines as [Hlines C4]. apply andb_prop in Hlines as [Hlines C3].
+  apply andb_prop in Hlines as [C1 C2].
+  assert (Hp : forallb pline (tl (lines_of (sk els))) = true).
+  { rewrite El. cbn [tl]. rewrite forallb_forall in *. intros l Hin. unfold pline. rewrite (C3 l Hin), (C4 l Hin). reflexivity. }
+  pose proof (wf_els_ml eok els false Hw Hok Hp) as Hml.
+  destruct (skeleton_rest (fun _ => true) (fun _ _ => False) (fun _ => True) ltac:(intros; contradiction) els false
+              (ml_elements_mono eok (fun _ => true) els ltac:(reflexivity) false Hml)) as [_ R2].
+  rewrite El in R2. cbn [tl] in R2.
+  unfold wl_pattern. rewrite Hne, Hml. cbn [andb].
+  rename C1 into C1a. apply negb_true_iff in C1a.
+  apply andb_prop in C2 as [C2a C2b]. apply negb_true_iff in C2a. apply Nat.eqb_eq in C2b.
+  assert (F : ml_first_nolf els = true).
+  { destruct els as [|[[|b t]|e] r]; try reflexivity. cbn [ml_first_nolf]. rewrite sk_cons in El.
+    destruct (N.eqb b 10) eqn:E10; [|reflexivity].
+    apply N.eqb_eq in E10. subst b. change ((10%N :: t) ++ sk r) with ([] ++ 10%N :: (t ++ sk r)) in El.
+    rewrite (lines_of_lf [] _ eq_refl) in El. injection El as <- _. discriminate C1a. }
+  assert (Hne' : els <> []) by (intros ->; discriminate Hne).
+  pose proof (first_indent_sp eok els Hne' Hml F) as Hfi. unfold first_indent in Hfi. fold (sk els) in Hfi. rewrite El in Hfi. cbn [hd] in Hfi.
+  assert (L : ml_last_ok els = true).
+  { unfold ml_last_ok. destruct (rev els) as [|[v|e] r'] eqn:Er; try reflexivity.
+    assert (Eels : els = rev r' ++ [TextElement v]).
+    { rewrite <- (rev_involutive els), Er. reflexivity. }
+    assert (Hvne : v <> []) by (apply (wf_els_text_ne els false v Hw); rewrite Eels; apply in_or_app; right; left; reflexivity).
+    assert (Esk : sk els = sk (rev r') ++ v) by (rewrite Eels, sk_app; cbn; rewrite app_nil_r; reflexivity).
+    assert (Hskne : sk els <> []) by (rewrite Esk; intros E; apply app_eq_nil in E as [_ E]; exact (Hvne E)).
+    assert (Elast : last (sk els) 0%N = last v 0%N) by (rewrite Esk; apply last_app_ne, Hvne).
+    destruct (N.eqb (last v 0%N) 10) eqn:E10.
+    - exfalso. apply N.eqb_eq in E10.
+      assert (Esk2 : sk els = removelast (sk els) ++ [10%N]).
+      { rewrite <- E10, <- Elast. apply app_removelast_last, Hskne. }
+      assert (Hll : last (l0 :: rest) [] = []) by (rewrite <- El, Esk2; apply last_line_lf).
+      unfold bytes in *. rewrite Hll in C2a. discriminate C2a.
+    - rewrite <- Elast in E10. destruct (last_line_of (sk els) Hskne E10) as [Hll Hlast].
+      rewrite El in Hll, Hlast. unfold bytes in *.
+      rewrite (rev_last _ Hll) in C2b. cbn [leading_spaces] in C2b. rewrite Hlast, Elast in C2b.
+      destruct (N.eqb (last v 0%N) 32); [discriminate C2b | reflexivity]. }
+  rewrite F, L. cbn [andb].
+  unfold nonblank_lines in R2. unfold bytes in *. rewrite R2 in C5. rewrite Hfi in C5.
+  destruct (first_sp els) eqn:Esp; cbn [negb] in C5.
+  - (* the first line is indented *)
+    apply andb_prop in C5 as [C5a C5b].
+    assert (Hlead : first_line_ok els = true).
+    { apply (first_line_sk_conv (fun _ => true) (fun _ _ => False) (fun _ => True) ltac:(intros; contradiction));
+        [exact Esp | |]; rewrite El; cbn [hd]; assumption. }
+    rewrite Hlead. cbn [andb].
+    destruct (min_list (own_indents els)) as [m|] eqn:Em; [|discriminate C5b].
+    apply Nat.eqb_eq in C5b. subst m. apply existsb_exists. exists 0. split; [apply min_list_in, Em | reflexivity].
+  - destruct (min_list (own_indents els)) as [m|] eqn:Em.
+    + apply orb_prop in C5 as [C5 | C5]; [|rewrite C5; apply orb_true_r].
+      apply Nat.eqb_eq in C5. subst m. apply orb_true_iff. left. apply orb_true_iff. right. apply existsb_exists. exists 0.
+      split; [apply min_list_in, Em | reflexivity].
+    + apply orb_true_iff. left. apply orb_true_iff. left. apply negb_true_iff. apply has_lf_sk.
+      destruct rest as [|l1 rest']; [apply (lines_single _ _ El)|]. exfalso.
+      pose proof (min_list_none _ Em) as Enone. rewrite <- R2 in Enone.
+      assert (Hin : In (last (l0 :: l1 :: rest') []) (l1 :: rest')).
+      { rewrite (last_cons2 l0 (l1 :: rest') [] ltac:(discriminate)). apply last_in_list'. discriminate. }
+      assert (Hin2 : In (last (l0 :: l1 :: rest') []) (filter (fun l => negb (is_blank_line l)) (l1 :: rest'))).
+      { apply filter_In. split; [exact Hin | rewrite C2a; reflexivity]. }
+      apply (in_map leading_spaces) in Hin2. unfold bytes in *. rewrite Enone in Hin2. destruct Hin2.
 Qed.
 
 End WfPattern2.
@@ -397,7 +416,7 @@ Definition Pe (e : expression) : Prop :=
 Definition Pv (v : variant) : Prop :=
   wf_variant v = true -> variant_lines_ok v = true -> utf8_variant v = true -> exists d, RoundTripSel.variant_ok (eokn d) v = true.
 Definition Pp (p : pattern) : Prop :=
-  wf_pattern p = true -> lines_ok_pattern p = true -> utf8_pattern p = true -> exists d, ml_pattern (eokn d) p = true.
+  wf_pattern p = true -> lines_ok_pattern p = true -> utf8_pattern p = true -> exists d, wl_pattern (eokn d) p = true.
 Definition Pel (x : pattern_element) : Prop := el_wf x -> exists d, el_ok (eokn d) x.
 Definition Pa (a : call_args) : Prop :=
   wf_args a = true -> match a with CallArguments pos _ => forallb lines_ok_inline pos = true end -> utf8_args a = true ->
@@ -407,7 +426,7 @@ Definition Pn (n : named_arg) : Prop := True.
 Lemma variant_ok_le d d' v : d <= d' -> RoundTripSel.variant_ok (eokn d) v = true -> RoundTripSel.variant_ok (eokn d') v = true.
 Proof.
   intros Hle. destruct v as [k p d0]. unfold RoundTripSel.variant_ok. intros H. apply andb_prop in H as [Hk Hp].
-  rewrite Hk, (ml_pattern_mono (eokn d) (eokn d') p (fun e => eokn_le d d' e Hle) Hp). reflexivity.
+  rewrite Hk, (wl_pattern_mono (eokn d) (eokn d') p (fun e => eokn_le d d' e Hle) Hp). reflexivity.
 Qed.
 
 Lemma el_ok_le d d' x : d <= d' -> el_ok (eokn d) x -> el_ok (eokn d') x.
@@ -471,7 +490,7 @@ Proof.
     assert (Hds : Forall (fun x => exists d, el_ok (eokn d) x) els).
     { rewrite Forall_forall in *. intros x Hx. apply (IH x Hx (Hall x Hx)). }
     destruct (forall_max (fun d x => el_ok (eokn d) x) els el_ok_le Hds) as [d Hd].
-    exists d. apply (wf_ml_pattern (eokn d) els Hw Hlines Hd).
+    exists d. apply (wf_wl_pattern (eokn d) els Hw Hlines Hd).
   - (* TextElement *) intros v Hv. exists 0. exact Hv.
   - (* PlaceableElement *) intros e IH (Hw & Hl & Hu). apply (IH Hw Hl Hu).
   - (* CallArguments *)
@@ -498,14 +517,14 @@ Proof.
   rewrite forallb_forall in *. intros x Hx. unfold simple_comment_line. rewrite (Hw x Hx), (utf8_starts_char x (Hu x Hx)). reflexivity.
 Qed.
 
-Lemma wf_value_ml p : wf_value p = true -> utf8_pattern p = true -> exists d, ml_pattern (eokn d) p = true.
+Lemma wf_value_ml p : wf_value p = true -> utf8_pattern p = true -> exists d, wl_pattern (eokn d) p = true.
 Proof.
   unfold wf_value. intros H Hu. apply andb_prop in H as [H1 H2].
   destruct depth_exists as (_ & _ & _ & HP & _). apply (HP p H1 H2 Hu).
 Qed.
 
-Lemma ml_pattern_le d d' p : d <= d' -> ml_pattern (eokn d) p = true -> ml_pattern (eokn d') p = true.
-Proof. intros Hle. apply ml_pattern_mono. intros e. apply (eokn_le d d' e Hle). Qed.
+Lemma ml_pattern_le d d' p : d <= d' -> wl_pattern (eokn d) p = true -> wl_pattern (eokn d') p = true.
+Proof. intros Hle. apply wl_pattern_mono. intros e. apply (eokn_le d d' e Hle). Qed.
 
 Lemma ml_attribute_le d d' a : d <= d' -> ml_attribute (eokn d) a = true -> ml_attribute (eokn d') a = true.
 Proof.
